@@ -824,19 +824,23 @@ Proof.
   - left. cbn [opt_list]. repeat split; auto. eexists. split; [reflexivity|]. cbn. repeat split; auto.
 Qed.
 
+Definition prefilled (n : N) : list etx := repeatN dummy_etx (N.to_nat n) [].
+
 (* before ShaEquivalentDifficultyForkBlock a failing lockup call is not reverted: the slot stays debited *)
 Lemma unwrap_pre_sha_witness :
   let c := wit_ctx (ShaEquivalentDifficultyForkBlock - 1) 0 [] in
+  let res := call_unwrap c wit_self 100000 5000 (prefilled 65536) wit_qi 1200 30000 in
   x_ptn c < ShaEquivalentDifficultyForkBlock /\
-  call_unwrap c wit_self 100000 5000 (repeatN dummy_etx 65536 []) wit_qi 1200 30000
-  = (false, 70000, 3800, repeatN dummy_etx 65536 []).
-Proof. vm_compute. split; reflexivity. Qed.
+  fst (fst (fst res)) = false /\ snd (fst res) = 3800 /\ lenN (snd res) = 65536.
+Proof. vm_compute. repeat split; reflexivity. Qed.
 
 Lemma unwrap_aon_refuted :
   exists c owner gas wrapped etxs benef value gl,
     ~ unwrap_aon owner gas wrapped etxs benef value gl (call_unwrap c owner gas wrapped etxs benef value gl).
 Proof.
-  exists (wit_ctx (ShaEquivalentDifficultyForkBlock - 1) 0 []), wit_self, 100000, 5000, (repeatN dummy_etx 65536 []), wit_qi, 1200, 30000.
-  destruct unwrap_pre_sha_witness as [_ E]. rewrite E. unfold unwrap_aon.
+  exists (wit_ctx (ShaEquivalentDifficultyForkBlock - 1) 0 []), wit_self, 100000, 5000, (prefilled 65536), wit_qi, 1200, 30000.
+  pose proof unwrap_pre_sha_witness as W. cbv zeta in W. destruct W as [_ [A [B _]]].
+  destruct (call_unwrap (wit_ctx (ShaEquivalentDifficultyForkBlock - 1) 0 []) wit_self 100000 5000 (prefilled 65536) wit_qi 1200 30000) as [[[ok g] wr] e].
+  cbn [fst snd] in A, B. subst. unfold unwrap_aon.
   intros [[H _]|[_ [H _]]]; discriminate.
 Qed.
